@@ -1,6 +1,6 @@
 (* Model/XmlRun.v — glue for the C07/C08 correspondence case files: boolean equalities
    on the data exchanged with the harness and the entry points it evaluates. *)
-From MP Require Import Common.Base Common.Tree Common.XStr Spec.Xml Spec.Infoset Model.XmlOut Model.XmlIn.
+From MP Require Import Common.Base Common.Tree Common.XStr Spec.Xml Spec.Infoset Spec.Mirror Model.XmlOut Model.XmlIn.
 
 Definition kind_eqb (a b : lkind) : bool :=
   match a, b with
@@ -76,3 +76,32 @@ Definition run_import (c : bool * bool * list pystr * xel) : res itree :=
 (** string helpers validated against the interpreter *)
 Definition run_strip (x : pystr) : pystr := strip x.
 Definition run_split (x : pystr) : list pystr := split_ws x.
+
+(** the declarative mirror (Spec/Mirror.v) against the implementation's tree, the in-scope
+    bindings compared as finite maps *)
+Definition omap_equivb (a b : list (option pystr * pystr)) : bool :=
+  Nat.eqb (length a) (length b) &&
+  forallb (fun kv => opt_eqb pystr_eqb (oassoc (fst kv) a) (oassoc (fst kv) b)) (a ++ b).
+
+Fixpoint itree_equivb (a b : itree) {struct a} : bool :=
+  let 'IT da ka := a in
+  let 'IT db kb := b in
+  pystr_eqb (i_name da) (i_name db) && opt_eqb pystr_eqb (i_content da) (i_content db) &&
+  opt_eqb pystr_eqb (i_tail da) (i_tail db) && opt_eqb pystr_eqb (i_prefix da) (i_prefix db) &&
+  dict_eqb (i_attrs da) (i_attrs db) && dict_eqb (i_extras da) (i_extras db) &&
+  omap_equivb (i_nsmap da) (i_nsmap db) &&
+  (fix go (x y : list itree) {struct x} : bool :=
+     match x, y with
+     | [], [] => true
+     | p :: x', q :: y' => itree_equivb p q && go x' y'
+     | _, _ => false
+     end) ka kb.
+
+(** in class, and the mirror is the observed tree *)
+Definition run_mirror (c : bool * bool * list pystr * xel * res itree) : bool :=
+  let '(cl, co, ls, e, want) := c in
+  infoset_okb e &&
+  match want with
+  | Ok t => itree_equivb t (mirror cl co ls e)
+  | Crash _ => false
+  end.
